@@ -458,6 +458,7 @@ VERIFY_NAMED = [NamedAnalysis("export_op", data.Op, vsp.OpInput), NamedAnalysis(
                                                                                ("tstop", "tstep"))]
 
 
+@guarded("koi", "hdl21.sim.data:Sim.add")
 def sim_add_obligations():
     """Sim.add(*attrs): the loop body located in the current source, executed for one arbitrary attribute of every
     attribute class: a valid attribute is appended at the END of sim.attrs (whatever is already there - equal-looking
